@@ -4,6 +4,7 @@
 # (never under /verif/evidence).  usage: sweep.sh <PROPERTY> <tier> <seed> [<seed> ...]
 prop=$1; tier=$2; shift 2
 cp /verif/target/release/acbsim ./acbsim.sweep || exit 2
+cp /verif/target/release/hashprobe ./hashprobe || exit 2   # the seam probe is looked up next to the binary
 mkdir -p sweep-out
 rc=0
 for seed in "$@"; do
